@@ -10,8 +10,9 @@ from fractions import Fraction  # noqa
 
 
 class Dom:
-    def __init__(self, good, bad, norm=None, name=''):
+    def __init__(self, good, bad, norm=None, name='', canon=None):
         self.good, self.bad, self.norm, self.name = list(good), list(bad), norm, name
+        self.canon = canon      # applied to BOTH the exposed and the expected value before comparing
 
     def normal(self, v):
         return v if self.norm is None else self.norm(v)
@@ -98,9 +99,11 @@ def build():
     USER_FUNCS_NR = Dom([{}, {'f': f1}, {'g': f2, 'h': f1}], [{'f': 5}, {'f': 'sin'}, {1: f1}, [f1], None, 'f',
                                                               {'f': [f1, f1]}],
                         name='{name: function} (no random functions)')
-    # a default constant is removed by giving it the value None; such entries are not kept in the configuration
+    # a default constant is removed by giving it the value None; whether such entries are kept in the exposed
+    # configuration is not documented: they are ignored when comparing
     USER_CONSTS = Dom([{}, {'c': 3}, {'c': 3e8, 'hbar': 1.5}, {'i': None, 'c': 2}], [{'c': 'a'}, {1: 2}, [1], None, 'c', {'c': [1, 2]}],
-                      norm=lambda v: {k: x for k, x in v.items() if x is not None}, name='{name: number or None}')
+                      canon=lambda v: {k: x for k, x in v.items() if x is not None} if isinstance(v, dict) else v,
+                      name='{name: number or None}')
 
     def nr_norm(v):
         if isinstance(v, list):
